@@ -59,6 +59,8 @@ func showSegs(segs []Seg) string {
 			switch {
 			case g.Zeros:
 				parts = append(parts, "zeros("+g.Len.String()+")")
+			case g.Stale:
+				parts = append(parts, "stale("+g.Len.String()+")")
 			case g.Min != nil:
 				parts = append(parts, "minbytes("+g.Min.String()+")")
 			default:
@@ -360,26 +362,21 @@ func (fr *Frame) builtin(x *ssa.Call, name string, args []Value) Value {
 		}
 		if ab, isAB := asArrayBuf(args[0]); isAB {
 			args = append([]Value{ab}, args[1:]...)
-		} else if sv, isS := args[0].(SliceV); isS && sv.Lo == 0 && sv.Arr.Up == nil && len(sv.Arr.Kids) > 0 && len(sv.Arr.Kids) <= 4096 {
+		} else if sv, isS := args[0].(SliceV); isS && sv.Lo == 0 && len(sv.Arr.Kids) > 0 && len(sv.Arr.Kids) <= 4096 && isWholeArray(sv.Arr) {
 			// copy of a string of symbolic length into a whole, still all-zero fixed byte array (a stack buffer in place
 			// of an allocation): from here on the array is followed as a buffer whose content is symbolic
 			if src, isA := args[1].(AbsSlice); isA {
 				if _, conc := it.asSlice(src); !conc {
 					if n, isC := it.ApplyTerm(sv.Len).IsConst(); isC && int(n.Int64()) == len(sv.Arr.Kids) {
 						if bt, isB := sv.Arr.Kids[0].Typ.Underlying().(*types.Basic); isB && bt.Kind() == types.Uint8 {
-							zero := true
-							for _, c := range sv.Arr.Kids {
-								if k, isK := it.loadValue(c).(KInt); !isK || k.V.Sign() != 0 {
-									zero = false
-								}
-							}
-							if zero {
+							zero, stale := it.arrayFill(sv.Arr)
+							if zero || stale {
 								dl := TInt(int64(len(sv.Arr.Kids)))
 								sl := it.ApplyTerm(src.Length())
 								if lo, _ := dl.Sub(sl).Bounds(); lo.Sign() < 0 {
 									it.abortf("copy of %s bytes into an array of %s bytes in %s", sl, dl, fr.fn)
 								}
-								it.setCell(sv.Arr, AbsSlice{Segs: []Seg{{Zeros: true, Len: dl}}})
+								it.setCell(sv.Arr, AbsSlice{Segs: []Seg{{Zeros: zero, Stale: !zero, Len: dl}}})
 								it.bufWrite(sv.Arr, TInt(0), src.Segs, fr.fn)
 								return termValue(sl)
 							}
@@ -1709,4 +1706,38 @@ func errorOnlyFn(p *load.Prog, fn *ssa.Function) bool {
 		}
 	}
 	return true
+}
+
+// isWholeArray: c is the cell of a complete array variable or field (not a window into a larger array).
+func isWholeArray(c *Cell) bool {
+	if _, ok := c.Typ.Underlying().(*types.Array); !ok {
+		return false
+	}
+	if c.Up == nil {
+		return c.Obj != nil
+	}
+	return c.Idx < len(c.Up.Kids) && c.Up.Kids[c.Idx] == c
+}
+
+// arrayFill: every element of the byte array is the constant 0 (zero), or every element is unknown (stale: a buffer of
+// a recycled object).
+func (it *Interp) arrayFill(c *Cell) (zero, stale bool) {
+	zero, stale = true, true
+	for _, k := range c.Kids {
+		switch v := it.loadValue(k).(type) {
+		case KInt:
+			stale = false
+			if v.V.Sign() != 0 {
+				zero = false
+			}
+		case Top:
+			zero = false
+			if v.Taint {
+				stale = false
+			}
+		default:
+			zero, stale = false, false
+		}
+	}
+	return zero, stale
 }
